@@ -34,6 +34,7 @@ def run(ctx):
     pp = PrettyPrinter()
     printed = []
     loaded = []
+    passed = []          # dictionaries whose round trip under the default options holds
     for i, (src, t) in enumerate(texts):
         try:
             d = sweep.fast_loads(t)
@@ -51,6 +52,8 @@ def run(ctx):
         loaded.append(d)
         printed.append(t2)
         r = rt.roundtrip_failure(d, sweep.fast_loads, lambda x: t2 if x is d else pp.pprint(x))
+        if not r:
+            passed.append(d)
         if r:
             kind = r[0]
             small = rt.shrink_dict(d, lambda c: (rt.roundtrip_failure(c, sweep.fast_loads, pp.pprint) or (None,))[0] == kind)
@@ -66,6 +69,33 @@ def run(ctx):
                 typ, path, a, b = r[1]
                 ctx.violation("roundtrip:" + sym, "content changes on parse -> print -> parse at %s/%s: %r became %r; minimal dictionary prints as %r"
                               % (typ, "/".join(map(str, path)), a, b, small_text), {"text": t, "printed": t2, "minimal_printed": small_text})
+    # ---- the same cycle with dumps called under non-default (content-preserving) formatting options
+    def opt_printer(o):
+        return PrettyPrinter(indent=o["indent"], spacer=o["spacer"], quote=o["quote"], newlinechar=o["newlinechar"],
+                             end_comment=o["end_comment"], align_values=o["align_values"])
+    default = dict(indent=4, spacer=" ", quote='"', newlinechar="\n", end_comment=False, align_values=False)
+    n_opt = 0
+    for i, d in enumerate(passed):
+        if i % 3 != 0 and ctx.tier == "quick":
+            continue
+        o = dict(indent=rng.choice([0, 1, 2, 3, 4, 8]), spacer=rng.choice([" ", " ", "\t"]), quote=rng.choice(['"', "'"]),
+                 newlinechar=rng.choice(["\n", "\r\n"]), end_comment=rng.random() < 0.5, align_values=rng.random() < 0.6)
+        if rt.excluded(d, o["quote"]):
+            continue
+        n_opt += 1
+
+        def fails(oo, dd=d):
+            if rt.excluded(dd, oo["quote"]):
+                return False
+            return rt.roundtrip_failure(dd, sweep.fast_loads, opt_printer(oo).pprint) is not None
+        if fails(o):
+            blame = next((k for k in sorted(o) if o[k] != default[k] and fails(dict(default, **{k: o[k]}))), "combination")
+            oo = dict(default, **{blame: o[blame]}) if blame != "combination" else o
+            small = rt.shrink_dict(d, lambda c: not rt.excluded(c, oo["quote"]) and rt.roundtrip_failure(c, sweep.fast_loads, opt_printer(oo).pprint) is not None)
+            r = rt.roundtrip_failure(small, sweep.fast_loads, opt_printer(oo).pprint) or ("changed", None, None)
+            ctx.violation("roundtrip-under-options:" + blame, "parse -> print -> parse changes content or is rejected when dumps is called with %s=%r (%s); minimal dictionary prints as %r"
+                          % (blame, o.get(blame), r[0], r[2]), {"options": oo, "printed": r[2], "dict": repr(small)[:1500]})
+    ctx.count("roundtrips_under_options", n_opt)
     # ---- every free-string slot x every awkward string (escaped quotes, blanks, unicode, look-alikes)
     n_str = 0
     for ot in docs.object_types():
